@@ -30,6 +30,7 @@ References:
 from __future__ import annotations
 
 from enum import IntEnum, unique
+from io import BytesIO
 from typing import Any, Dict, NamedTuple, Optional, Tuple, Union
 
 import cbor2
@@ -62,6 +63,26 @@ class AdaByronAddrConst:
     CHACHA20_POLY1305_NONCE: bytes = b"serokellfore"
     # Payload tag
     PAYLOAD_TAG: int = 24
+
+
+def _CborLoadsExact(data_bytes: bytes) -> Any:
+    """
+    Decode CBOR bytes that shall consist of exactly one item (cbor2.loads ignores what follows the first item).
+
+    Args:
+        data_bytes (bytes): Data bytes
+
+    Returns:
+        Any: Decoded object
+
+    Raises:
+        ValueError: If some bytes follow the item
+    """
+    with BytesIO(data_bytes) as fp:
+        obj = cbor2.load(fp)
+        if fp.read(1) != b"":
+            raise ValueError("Invalid CBOR encoding (bytes after the item)")
+    return obj
 
 
 class _AdaByronAddrHdPath:
@@ -223,7 +244,7 @@ class _AdaByronAddrPayload(NamedTuple):
         Raises:
             ValueError: If the serialization is not valid
         """
-        addr_payload: Tuple[bytes, Dict[int, bytes], int] = cbor2.loads(ser_payload_bytes)  # type: ignore [assignment]
+        addr_payload: Tuple[bytes, Dict[int, bytes], int] = _CborLoadsExact(ser_payload_bytes)  # type: ignore [assignment]
         if (not isinstance(addr_payload, (list, tuple))
                 or len(addr_payload) != 3
                 or not isinstance(addr_payload[0], bytes)
@@ -300,7 +321,7 @@ class _AdaByronAddr(NamedTuple):
         Raises:
             ValueError: If the serialization is not valid
         """
-        addr_bytes: Tuple[cbor2.CBORTag, int] = cbor2.loads(ser_addr_bytes)     # type: ignore [assignment]
+        addr_bytes: Tuple[cbor2.CBORTag, int] = _CborLoadsExact(ser_addr_bytes)     # type: ignore [assignment]
         if (not isinstance(addr_bytes, (list, tuple))
                 or len(addr_bytes) != 2
                 or not isinstance(addr_bytes[0], cbor2.CBORTag)
